@@ -680,7 +680,11 @@ impl C02 {
     fn run(&self, plan: &Plan, stats: &mut Stats) -> Option<Violation> {
         let built = match build_layout(&plan.layout) {
             Ok(b) => b,
-            Err(e) => panic!("harness: layout does not build: {e}"),
+            Err(_) => {
+                // the workload itself cannot be produced (a writer-side break, judged by C01/C14)
+                stats.probe("workload_unbuildable", 1);
+                return None;
+            }
         };
         let index = match make_index(&built.flat, plan.gzi_via_io) {
             Ok(i) => i,
